@@ -519,6 +519,7 @@ _GCC_KINDS = [
     ("too many arguments", "argument count"),
     ("request for member", "request for member"),
     ("array size missing", "array size missing"),
+    ("storage size of", "storage size unknown"),
     ("assignment to expression with array type", "assignment to array"),
 ]
 
@@ -559,25 +560,26 @@ def gcc_feature(kind, msg, line, ir, findings, stderr=""):
         return "window_struct_constness"
     if kind == "request for member" and ".strides[" in line:
         return "stride_of_renamed_buffer"
-    if kind == "array size missing" and re.search(r"\w\[\];", line):
+    if kind in ("array size missing", "storage size unknown") and re.search(r"\w\[\];", line):
         return "scalar_alloc_in_array_memory"
+    if kind == "implicit declaration" and _nested_extern(ir):
+        return "nested_extern_helper_missing"
+    if "--" in line and "for (" not in line and ("decrement" in msg or kind in ("lvalue required", "write to const")):
+        return "nested_usub"
     quoted = set(re.findall(r"[‘'`](\w+)[’'`]", msg))
-    words = set(re.findall(r"\w+", line)) | quoted
+    words = set(re.findall(r"\w+", line))
     names = _all_names(ir)
-    if (words & names & set(C_KEYWORDS)) or (quoted & set(C_KEYWORDS)):
+    syntaxish = kind in ("syntax", "declaration specifiers", "expected expression")
+    if (quoted & names & set(C_KEYWORDS)) or (syntaxish and words & names & set(C_KEYWORDS)):
         return "c_keyword_name"
     if quoted & names & set(LIBC_NAMES):
         return "libc_name"
-    if (quoted | words) & names & set(HELPER_NAMES):
+    if (quoted & names & set(HELPER_NAMES)) or (syntaxish and words & names & set(HELPER_NAMES)):
         return "backend_helper_name"
-    if "--" in line and "for (" not in line:
-        return "nested_usub"
     if any(f["kind"] == "window_to_dense" for f in findings):
         return "window_to_dense_accepted"
     if _vector_args(ir):
         return "vector_memory_argument"
-    if names & (set(C_KEYWORDS) | set(LIBC_NAMES) | set(HELPER_NAMES)):
-        return "reserved_name"
     return "other"
 
 
@@ -610,6 +612,21 @@ def _all_names(ir):
             elif isinstance(s, LoopIR.For):
                 names.add(str(s.iter))
     return names
+
+
+def _nested_extern(ir):
+    """an extern application among the arguments of another extern application"""
+    for p in _procs_of(ir):
+        if p.instr is not None:
+            continue
+        for _, st in irutil.all_stmts(p):
+            for _, _, e in irutil.stmt_exprs(st):
+                for _, sub in irutil.sub_exprs(e):
+                    if isinstance(sub, LoopIR.Extern):
+                        for a in sub.args:
+                            if any(isinstance(x, LoopIR.Extern) for _, x in irutil.sub_exprs(a)):
+                                return True
+    return False
 
 
 def _vector_args(ir):
@@ -839,10 +856,10 @@ def plan(tier, seed):
     quick = tier == "quick"
     # count-based budget (modules per shard); soft_s is only a generous cap for a loaded machine.
     # A module costs ~1.3 s on an idle core (front end 0.3 s, up to 6 compiles, gcc -c 0.1-0.4 s each):
-    # quick ~50 s per shard, thorough ~9 min.
+    # quick ~40 s per shard, thorough ~9 min.
     return {
         "nshards": 16,
-        "params": {"soft_s": 300 if quick else 840, "nprograms": 36 if quick else 400, "script_len": 4},
+        "params": {"soft_s": 300 if quick else 840, "nprograms": 28 if quick else 400, "script_len": 4},
         "hard_timeout_s": 700 if quick else 2400,
     }
 
